@@ -82,6 +82,19 @@ package statf
 //@   ensures [C04] (ok11 && err == nil) ==> st.TarsVersion == (k11 == 0 ? decStrV(src, q10, 10, d0) : old(st.TarsVersion))
 //@   ensures [C06] (ok10 && k11 == 2) ==> err != nil
 //@   ensures [C04] ok11 ==> (err == nil && readBuf.buf.i == q11)
+//@   site ).Read#0 assert [C04] $2 == 0 && $3 == true
+//@   site ).Read#1 assert [C04] $2 == 1 && $3 == true
+//@   site ).Read#2 assert [C04] $2 == 2 && $3 == true
+//@   site ).Read#3 assert [C04] $2 == 3 && $3 == true
+//@   site ).Read#4 assert [C04] $2 == 4 && $3 == true
+//@   site ).Read#5 assert [C04] $2 == 5 && $3 == true
+//@   site ).Read#6 assert [C04] $2 == 6 && $3 == true
+//@   site ).Read#7 assert [C04] $2 == 7 && $3 == false
+//@   site ).Read#8 assert [C04] $2 == 8 && $3 == false
+//@   site ).Read#9 assert [C04] $2 == 9 && $3 == false
+//@   site ).Read#10 assert [C04] $2 == 10 && $3 == false
+//@   sites ).Read = 11
+//@   sites ).Skip = 0
 //@   safety [C05]
 //
 //@ func (*StatMicMsgHead).ReadBlock
@@ -192,6 +205,18 @@ package statf
 //@   ensures [C04] (ok3 && err == nil) ==> st.ExecCount == (k3 == 0 ? decIntV(src, q2, 2, d0) : old(st.ExecCount))
 //@   ensures [C06] (ok2 && k3 == 2) ==> err != nil
 //@   loop 0 invariant [C05] validR(readBuf) && readBuf.buf.i >= p0 && st != nil && st.IntervalCount != nil && 0 <= i0
+//@   site ).Read#0 assert [C04] $2 == 0 && $3 == true
+//@   site ).Read#1 assert [C04] $2 == 1 && $3 == true
+//@   site ).Read#2 assert [C04] $2 == 2 && $3 == true
+//@   site ).Read#3 assert [C04] $2 == 0 && $3 == true
+//@   site ).Read#4 assert [C04] $2 == 0 && $3 == true
+//@   site ).Read#5 assert [C04] $2 == 1 && $3 == true
+//@   site ).Read#6 assert [C04] $2 == 4 && $3 == true
+//@   site ).Read#7 assert [C04] $2 == 5 && $3 == true
+//@   site ).Read#8 assert [C04] $2 == 6 && $3 == true
+//@   sites ).Read = 9
+//@   site ).Skip#0 assert [C04] $1 == 8 && $2 == 3 && $3 == true
+//@   sites ).Skip = 1
 //@   safety [C05]
 //
 //@ func (*StatMicMsgBody).ReadBlock
@@ -284,6 +309,17 @@ package statf
 //@   ensures [C04] (ok9 && err == nil) ==> st.ParentWidth == (k9 == 0 ? decIntV(src, q8, 8, d0) : old(st.ParentWidth))
 //@   ensures [C06] (ok8 && k9 == 2) ==> err != nil
 //@   ensures [C04] ok9 ==> (err == nil && readBuf.buf.i == q9)
+//@   site ).Read#0 assert [C04] $2 == 0 && $3 == true
+//@   site ).Read#1 assert [C04] $2 == 1 && $3 == true
+//@   site ).Read#2 assert [C04] $2 == 2 && $3 == true
+//@   site ).Read#3 assert [C04] $2 == 3 && $3 == true
+//@   site ).Read#4 assert [C04] $2 == 4 && $3 == true
+//@   site ).Read#5 assert [C04] $2 == 5 && $3 == true
+//@   site ).Read#6 assert [C04] $2 == 6 && $3 == true
+//@   site ).Read#7 assert [C04] $2 == 7 && $3 == true
+//@   site ).Read#8 assert [C04] $2 == 8 && $3 == true
+//@   sites ).Read = 9
+//@   sites ).Skip = 0
 //@   safety [C05]
 //
 //@ func (*StatSampleMsg).ReadBlock
@@ -368,6 +404,9 @@ package statf
 //@   ensures [C04] (ok1 && err == nil) ==> st.BFromClient == (k1 == 0 ? (decIntV(src, q0, 0, d0) != 0) : old(st.BFromClient))
 //@   ensures [C06] (k1 == 2) ==> err != nil
 //@   ensures [C04] ok1 ==> (err == nil && readBuf.buf.i == q1)
+//@   site ).Read#0 assert [C04] $2 == 0 && $3 == true
+//@   sites ).Read = 1
+//@   sites ).Skip = 0
 //@   safety [C05]
 //
 //@ func (*ProxyInfo).ReadBlock
